@@ -88,7 +88,8 @@ def worker(blocks):
             out['open'] += 1
             continue
         if kind in ('arith', 'text'):
-            results = [('direct', calls.direct_call(f, args, 'native')), ('wrapped', calls.direct_call(f, args, 'wrapped'))]
+            results = [('direct', calls.direct_call(f, args, 'native')), ('float', calls.direct_call(f, args, 'float')),
+                       ('wrapped', calls.direct_call(f, args, 'wrapped'))]
             o, stored, text = calls.formula_call(f, args)
             if o is not None:
                 results.append(('formula', o))
@@ -226,7 +227,12 @@ def run(run):
     r = run.tlc('MC_C08', 'C08_quick.cfg' if run.tier == 'quick' else 'C08_thorough.cfg', dump=True, timeout=900)
     blocks = pool.dump_blocks(r.dump, skip_substr='"pending"')
     kinds = {}
-    for res in pool.pmap(worker, blocks):
+    # the text-argument cases run in ONE process, twice and in both orders: spellings that are equal as Python values
+    # (1, 1.0, True / 0, 0.0, False) must not influence each other through any per-process state
+    text_blocks = [b for b in blocks if 'kind |-> "text"' in b]
+    blocks = [b for b in blocks if 'kind |-> "text"' not in b]
+    text_results = pool.pmap(worker, text_blocks + text_blocks[::-1], nchunks=1, procs=1) if text_blocks else []
+    for res in list(pool.pmap(worker, blocks)) + list(text_results):
         if res['machinery']:
             raise xl.MachineryError(res['machinery'][0])
         run.evaluations += res['calls']
